@@ -520,10 +520,24 @@ def attr_values(rng, n, mode):
     return [rng.randint(-8, 8) / 4.0 for _ in range(n)]
 
 
-def gen_script(rng, kind, nV, nF, nCorn, nCells, ncalls):
-    """a random sequence of calls; persistent calls leave cached attributes that later calls pick up"""
+def respell(rng, w):
+    """the same option string in another spelling the code accepts (it lower-cases the weight)"""
+    r = rng.random()
+    if r < 0.45:
+        return None
+    if r < 0.65:
+        return w.capitalize()
+    if r < 0.85:
+        return w.upper()
+    return "".join(c.upper() if rng.random() < 0.5 else c for c in w)
+
+
+def gen_script(rng, kind, nV, nF, nCorn, nCells, ncalls, geom=None):
+    """a random sequence of calls; persistent calls leave cached attributes that later calls pick up.
+    The `persistent` slot is False | True | a custom attribute name (persistent, stored under that name)."""
     def pd():
-        return [rng.random() < 0.5, rng.random() < 0.5]
+        r = rng.random()
+        return [False if r < 0.4 else True if r < 0.8 else "c07n_%d" % rng.randint(0, 5), rng.random() < 0.5]
     pool = []
     if kind == "vol":
         pool = [["cell_volume"] + pd(), ["cell_bary"] + pd(), ["mean_vol", None], ["mean_vol", rng.randint(1, max(1, 2 * nCells))],
@@ -535,6 +549,16 @@ def gen_script(rng, kind, nV, nF, nCorn, nCells, ncalls):
                 ["mean_area", None], ["mean_area", rng.randint(1, max(1, 2 * nF))], ["total_area"], ["bary"]]
         for w in ("uniform", "area", "angle"):
             pool.append(["vnormals", w] + pd())
+        # a spelling vertex_normals does NOT accept (it does not lower-case `interpolation`): must be rejected
+        pool.append(["vnormals", rng.choice(["Area", "UNIFORM", "Angle"])] + pd())
+        if geom is not None:
+            V_, F_ = geom
+            for w in ("uniform", "area", "angle"):
+                fv = []
+                for f in F_:
+                    n_ = cross(sub(V_[f[1]], V_[f[0]]), sub(V_[f[2]], V_[f[0]]))
+                    fv.append([float(n_[i] * 2 + rng.randint(-1, 1)) for i in range(3)])
+                pool.append(["vnormals_c", w, fv] + pd())
         if kind == "tri":
             pool += [["circum"] + pd(), ["circum"] + pd(), ["cot"] + pd(), ["cw"] + pd(), ["cot"] + pd(), ["cw"] + pd(),
                      ["defects", False] + pd(), ["defects", True] + pd(), ["defects", False] + pd()]
@@ -543,12 +567,12 @@ def gen_script(rng, kind, nV, nF, nCorn, nCells, ncalls):
         dd = lambda: [rng.random() < 0.5, rng.random() < 0.5]  # noqa: E731
         pool.append(["v2f", None, attr_values(rng, nV, mode())] + dd() + [pre(nF)])
         for w in WEIGHTS_F2V:
-            pool.append(["f2v", w, attr_values(rng, nF, mode())] + dd() + [pre(nV)])
+            pool.append(["f2v", w, attr_values(rng, nF, mode())] + dd() + [pre(nV), respell(rng, w)])
         pool.append(["sv2c", None, attr_values(rng, nV, mode())] + dd() + [pre(nCorn)])
         pool.append(["sf2c", None, attr_values(rng, nF, mode())] + dd() + [pre(nCorn)])
         for w in WEIGHTS_C:
-            pool.append(["c2v", w, attr_values(rng, nCorn, mode())] + dd() + [pre(nV)])
-            pool.append(["c2f", w, attr_values(rng, nCorn, mode())] + dd() + [pre(nF)])
+            pool.append(["c2v", w, attr_values(rng, nCorn, mode())] + dd() + [pre(nV), respell(rng, w)])
+            pool.append(["c2f", w, attr_values(rng, nCorn, mode())] + dd() + [pre(nF), respell(rng, w)])
     rng.shuffle(pool)
     return pool[:ncalls]
 
@@ -602,13 +626,13 @@ def gen_scenario(rng):
         nF = len(F) if F else 0
         nCorn = sum(len(f) for f in F) if F else 0
         nC = len(C) if C else 0
-        pre = gen_script(rng, kind, len(V), nF, nCorn, nC, 40)
+        pre = gen_script(rng, kind, len(V), nF, nCorn, nC, 40, geom=(V, F) if F else None)
         pre = [c for c in pre if c[0] in PRODUCERS]
         for c in pre:
-            c[-2] = True   # persistent
+            c[-2] = True   # persistent under the default name
         rng.shuffle(pre)
         pre = pre[:rng.randint(1, 4)]
-        post = gen_script(rng, kind, len(V), nF, nCorn, nC, rng.randint(4, 8))
+        post = gen_script(rng, kind, len(V), nF, nCorn, nC, rng.randint(4, 8), geom=(V, F) if F else None)
         return kind, V, F, C, pre + [["move", [[float(x) for x in p] for p in V2]]] + post
     raise RuntimeError("scenario generator failed")
 
@@ -677,7 +701,7 @@ def gen_repeat(rng):
             C = None
         nF = len(F) if F else 0
         nCorn = sum(len(f) for f in F) if F else 0
-        base = gen_script(rng, kind, len(V), nF, nCorn, len(C) if C else 0, 60)
+        base = gen_script(rng, kind, len(V), nF, nCorn, len(C) if C else 0, 60, geom=(V, F) if F else None)
         # persistent computations first in the pool: they are the ones that leave state behind
         pers = [c for c in base if len(c) >= 3 and isinstance(c[-1], bool) and isinstance(c[-2], bool)]
         for c in pers:
